@@ -365,6 +365,8 @@ func main() {
 	pool.Close()
 
 	obs := map[int]*Obs{}
+	skipped := map[int]bool{}
+	feederDenied := false
 	for w, res := range results {
 		if res.Crash != "" {
 			cleanup()
@@ -389,20 +391,34 @@ func main() {
 		for i := range wr.Obs {
 			obs[wr.Obs[i].ID] = &wr.Obs[i]
 		}
+		if wr.FeederDenied != "" {
+			feederDenied = true
+			r.Violation("authorized-denied:rtsp:publish:hdr",
+				"the publisher that supplies the readers' paths (user v3, who may publish anywhere) was denied: "+wr.FeederDenied,
+				map[string]any{"worker": w, "error": wr.FeederDenied})
+			for _, c := range jobs[w].Cases {
+				if c.Action == "read" {
+					skipped[c.ID] = true
+				}
+			}
+		}
 		if os.Getenv("VERIF_E2E_TIMING") != "" {
 			fmt.Fprintf(os.Stderr, "worker %d: cases=%d start=%.1fs read=%.1fs publish=%.1fs\n", w, len(jobs[w].Cases), wr.StartS, wr.ReadS, wr.PubS)
 		}
 	}
 	cleanup()
 
-	judge(r, cases, obs)
+	judge(r, cases, obs, skipped)
+	if feederDenied {
+		r.Note("read cases were not run on the workers whose feeder was denied")
+	}
 
 	r.Rule = "protocol x action x path {a,b1,c} x identity (7 users with their password, 4 with a wrong one, 2 with another user's, " +
 		"anonymous; 3 from a second source address) x credential placement (RTSP: unasked Basic header / URL after challenge; " +
 		"RTMP: query; SRT: both stream-id syntaxes; HTTP: Basic / Bearer user:pass) x RTSP flow (DESCRIBE+SETUP+PLAY, SETUP+PLAY, " +
 		"DESCRIBE of another path) x RTSP server methods (basic+digest / basic); a class = protocol/action/placement/flow/variant x " +
 		"predicted verdict x observed protocol steps"
-	r.Exhaustive = *flagOnly == ""
+	r.Exhaustive = *flagOnly == "" && !feederDenied
 	r.Assumptions = []string{
 		"one configuration of users and paths (the permission shapes of the design: exact path, any path, regular expression, IP-restricted, none)",
 		"all clients come from loopback addresses (127.0.0.1 and 127.0.0.7); an address outside 127/8 cannot be produced in the sandbox",
@@ -414,11 +430,14 @@ func main() {
 	r.Finish()
 }
 
-func judge(r *vcommon.Run, cases []Case, obs map[int]*Obs) {
+func judge(r *vcommon.Run, cases []Case, obs map[int]*Obs, skipped map[int]bool) {
 	counts := map[string]int{}
 	var harnessErrs []string
 	for _, c := range cases {
 		o := obs[c.ID]
+		if skipped[c.ID] {
+			continue
+		}
 		if o == nil {
 			harnessErrs = append(harnessErrs, fmt.Sprintf("case %s: no observation", c.key()))
 			continue
